@@ -964,8 +964,23 @@ theorem scopedKind_facts {k : String} (h : Gen.scopedKinds.any (fun e => e.2 == 
 theorem plainVar_notKeyword {n : String} (h : plainVar n = true) : isKeyword n = false := by
   simp only [plainVar, Bool.and_eq_true, Bool.not_eq_true'] at h; exact h.2
 
+theorem nameVar_notKeyword {n : String} (h : nameVar n = true) : isKeyword n = false := by
+  simp only [nameVar, plainVar, escapedVar, Bool.or_eq_true, Bool.and_eq_true, Bool.not_eq_true'] at h
+  rcases h with h | h <;> exact h.2
+
 theorem plainRun_ne_us {n : String} (h : isPlainRun n.toList = true) : n ≠ "_" := by
   intro e; subst e; exact absurd h (by decide)
+
+/-- a plain run (`LETTER (LETTER | NUMBER)*`) has no underscore: as the index of a compound variable it is written bare -/
+theorem plainRun_no_us {cs : List Char} (h : isPlainRun cs = true) : cs.contains '_' = false := by
+  cases cs with
+  | nil => simp [isPlainRun] at h
+  | cons c tl =>
+    simp only [isPlainRun, Bool.and_eq_true, List.all_eq_true, Bool.or_eq_true] at h
+    simp only [List.contains_eq_mem, decide_eq_false_iff_not, List.mem_cons, not_or]
+    refine ⟨fun e => ?_, fun hm => ?_⟩
+    · have := h.1; rw [← e] at this; exact absurd this (by decide)
+    · rcases h.2 _ hm with h' | h' <;> exact absurd h' (by decide)
 
 theorem wfvar_of_printable {v : IterVar} (h : printableIterVar v = true) : WFx.WFvar v := by
   cases v with
@@ -990,7 +1005,7 @@ theorem coreExp_wf : (e : PExp) → coreExp e = true → WFx e
     | some ns =>
       simp only [hd, Bool.and_eq_true, List.all_eq_true, decide_eq_true_eq, beq_iff_eq] at h
       exact ⟨ns, rfl, h.1, h.2⟩
-  | .var n, h => by simp only [coreExp] at h; simp only [WFx]; exact plainVar_notKeyword h
+  | .var n, h => by simp only [coreExp] at h; simp only [WFx]; exact nameVar_notKeyword h
   | .cvar n idx, h => by
     simp only [coreExp, Bool.and_eq_true, Bool.not_eq_true'] at h
     simp only [WFx]
@@ -1034,7 +1049,11 @@ theorem coreIdx_wf : (es : List PExp) → coreIdx es = true → WFx.WFidx es
     simp only [WFx.WFidx]; exact ⟨h.1.1, coreIdx_wf es h.2⟩
   | .var i :: es, h => by
     simp only [coreIdx, Bool.and_eq_true] at h
-    simp only [WFx.WFidx]; exact coreIdx_wf es h.2
+    simp only [WFx.WFidx]
+    refine ⟨fun hc => ?_, coreIdx_wf es h.2⟩
+    rcases Bool.or_eq_true _ _ ▸ h.1 with hp | he
+    · rw [plainRun_no_us hp] at hc; exact absurd hc (by decide)
+    · simp only [escapedVar, Bool.and_eq_true, Bool.not_eq_true'] at he; exact he.2
   | .int v :: es, h => by
     simp only [coreIdx, Bool.and_eq_true] at h
     simp only [WFx.WFidx]; exact ⟨coreExp_wf _ h.1, coreIdx_wf es h.2⟩
@@ -1101,7 +1120,7 @@ end
 
 theorem coreName_wf {v : CName} (h : coreName v = true) : WFname v := by
   cases v with
-  | plain n => exact plainVar_notKeyword h
+  | plain n => exact nameVar_notKeyword h
   | compound n idx =>
     simp only [coreName, Bool.and_eq_true, Bool.not_eq_true'] at h
     exact ⟨by intro e; subst e; simp at h, coreIdx_wf idx h.2⟩
